@@ -2,9 +2,11 @@
 package extract
 
 import (
+	"bytes"
 	"fmt"
 	"go/ast"
 	"go/parser"
+	"go/printer"
 	"go/token"
 	"os"
 	"path/filepath"
@@ -204,6 +206,8 @@ func genConsts(repo, out string) error {
 		order = append(order, coqString(c))
 	}
 	fmt.Fprintf(&b, "Definition gen_relayer_loop_actions : list string := [%s].\n", strings.Join(order, "; "))
+	// every LevelDB access of the relayer package: (file, function, Get / Put / Delete, key expression)
+	fmt.Fprintf(&b, "Definition gen_relayer_db_accesses : list (string * string * string * string) := [%s].\n", strings.Join(dbAccesses(repo), ";\n  "))
 	return writeV(out, "Consts.v", b.String())
 }
 
@@ -255,6 +259,58 @@ func genMintSites(repo, out string) error {
 	body := fmt.Sprintf("Definition gen_mint_sites : list (string * string) := [%s].\nDefinition gen_controller_writers : list (string * string) := [%s].\n",
 		strings.Join(items, ";\n  "), strings.Join(citems, ";\n  "))
 	return writeV(out, "MintSites.v", body)
+}
+
+// dbAccesses lists every call x.DB.Get / x.DB.Put / x.DB.Delete (and db.Get / db.Put / db.Delete) in the non-test files of
+// cmd/ebrelayer/relayer with the source text of its key argument: which listener reads and writes which cursor.
+func dbAccesses(repo string) []string {
+	dir := filepath.Join(repo, "cmd/ebrelayer/relayer")
+	ents, err := os.ReadDir(dir)
+	if err != nil {
+		return nil
+	}
+	var out []string
+	for _, en := range ents {
+		if !strings.HasSuffix(en.Name(), ".go") || strings.HasSuffix(en.Name(), "_test.go") {
+			continue
+		}
+		fset := token.NewFileSet()
+		f, err := parser.ParseFile(fset, filepath.Join(dir, en.Name()), nil, parser.ParseComments)
+		if err != nil || hasVerifTag(f) {
+			continue
+		}
+		for _, d := range f.Decls {
+			fd, ok := d.(*ast.FuncDecl)
+			if !ok || fd.Body == nil {
+				continue
+			}
+			ast.Inspect(fd.Body, func(n ast.Node) bool {
+				ce, ok := n.(*ast.CallExpr)
+				if !ok || len(ce.Args) == 0 {
+					return true
+				}
+				se, ok := ce.Fun.(*ast.SelectorExpr)
+				if !ok || (se.Sel.Name != "Get" && se.Sel.Name != "Put" && se.Sel.Name != "Delete") {
+					return true
+				}
+				recv := ""
+				switch x := se.X.(type) {
+				case *ast.SelectorExpr:
+					recv = x.Sel.Name
+				case *ast.Ident:
+					recv = x.Name
+				}
+				if recv != "DB" && recv != "db" {
+					return true
+				}
+				var kb bytes.Buffer
+				_ = printer.Fprint(&kb, fset, ce.Args[0])
+				out = append(out, fmt.Sprintf("(%s, %s, %s, %s)", coqString(en.Name()), coqString(funcName(fd)), coqString(se.Sel.Name), coqString(kb.String())))
+				return true
+			})
+		}
+	}
+	return out
 }
 
 // loopCalls lists, in source order, the calls of EthereumSub.Start that talk to the outside: the cursor read
